@@ -62,10 +62,15 @@ Theorem C23_engine_iterate : forall e (m : kvmap) P S, keys_wf m -> wf_bytes (ob
   eng_iter e m P S = kv_iterate m (ob P) (ob S).
 Proof. exact eng_iter_spec. Qed.
 
-(* the (repaired) range glue never writes into the caller's prefix buffer *)
-Theorem C23_range_keeps_caller_buffer : forall prefix start,
-  caller_buffer_after_range prefix start = g_arr prefix.
-Proof. exact range_keeps_caller_buffer. Qed.
+(* Go slices over a memory of arrays: the repaired range glue (copy, then append) leaves every array
+   the caller can see untouched and yields prefix ++ start; the pinned tree's in-place append is
+   refuted on the witness in proofs/PrefixRangeProofs.v (range_old_refuted) *)
+Theorem C23_range_keeps_caller_memory : forall m prefix start,
+  (g_arr prefix < length m)%nat -> (g_len prefix <= length (nth (g_arr prefix) m []))%nat ->
+  let '(m', r) := range_start m prefix start in
+  (forall i, (i < length m)%nat -> nth i m' [] = nth i m []) /\
+  slice_bytes m' r = slice_bytes m prefix ++ start.
+Proof. exact range_keeps_caller_memory. Qed.
 
 (* batch replay order = insertion order, in the caller's own keys, through any wrappers *)
 Theorem C23_replay_order : forall s l, st_breplay s (map (st_bop s) l) = l.
@@ -102,5 +107,5 @@ Print Assumptions C23_pbl_range.
 Print Assumptions C23_ldb_next_loop.
 Print Assumptions C23_pbl_first_then_next.
 Print Assumptions C23_engine_iterate.
-Print Assumptions C23_range_keeps_caller_buffer.
+Print Assumptions C23_range_keeps_caller_memory.
 Print Assumptions C23_replay_order.
